@@ -24,7 +24,7 @@ TECHNIQUE = "runtime monitoring: projection law across option sets + structural 
 RULE = ("schemas from G-schema x option sets (quick: all-on, all-off, each option alone on, each alone off, 2 random = 18 sets; thorough: all 128) x single-type lookups for every type "
         "x a family of ad-hoc introspection selections. Non-trivial: the schema has a deprecated input value or directive, a OneOf input, a specifiedBy URL or a default; distinct = (schema SDL, option set).")
 ASSUMPTIONS = ["deprecated directives are an experimental feature: the printed client schema is compared with the printed original, both by print_schema"]
-REQUIRED_COUNTERS = ["introspection_runs", "projection_laws_checked", "model_comparisons", "type_lookups_compared", "client_schemas_round_tripped", "adhoc_selections_checked"]
+REQUIRED_COUNTERS = ["introspection_from_schema_compared", "introspection_runs", "projection_laws_checked", "model_comparisons", "type_lookups_compared", "client_schemas_round_tripped", "adhoc_selections_checked"]
 
 OPTS = ['descriptions', 'specified_by_url', 'directive_is_repeatable', 'schema_description', 'input_value_deprecation',
         'experimental_directive_deprecation', 'one_of']
@@ -175,6 +175,19 @@ def check_schema(ctx, rng, S, m, how, case):
         ctx.count("projection_laws_checked")
         ctx.case()
         exp = project(full, o)
+        # the packaged entry point (introspection_from_schema) must hand every option to the query builder unchanged
+        packaged = None
+        if rng.random() < 0.3:
+            try:
+                packaged = introspection_from_schema(S, **o)
+            except Exception as e:  # noqa: BLE001
+                ctx.violation(f"introspection-from-schema-crash:{type(e).__name__}", {"options": o, "exception": repr(e)[:200]}, {**case, "options": o})
+                return
+            ctx.count("introspection_from_schema_compared")
+        if packaged is not None and json.dumps(packaged) != json.dumps(got):
+            ctx.violation("introspection-from-schema-differs-from-query", {"how": how, "options_off": [k for k, v in o.items() if not v],
+                                                                          "diff": first_json_diff(packaged, got)}, {**case, "options": o})
+            return
         if got != exp or json.dumps(got) != json.dumps(exp):
             off = [k for k, v in o.items() if not v]
             ctx.violation("projection-law:" + ("input-value-deprecation" if 'isDeprecated' in (first_json_diff(got, exp) or '') or 'length' in (first_json_diff(got, exp) or '') else "attributes"),
